@@ -1,6 +1,6 @@
 #!/bin/sh
 # usage: tools/triage_seed.sh <Cxx> [outdir-prefix]  — run each candidate change of a seeding batch against the property's quick check
-P="$1"; PRE="${2:-/tmp/seedout5_}"
+P="$1"; PRE="${2:-/tmp/seedout6_}"
 cd "$(dirname "$0")/.." || exit 2
 for d in ${PRE}${P}/change_*; do
   [ -f "$d/patch.diff" ] || continue
